@@ -73,6 +73,7 @@ template<typename T>
 struct Cont {
     Env<T> *env;
     std::shared_ptr<int> cap;  // captured state: must be released with the continuation
+    std::shared_ptr<QXmppTask<T>> self;  // optionally a copy of the task the continuation is attached to
     void operator()(T &&v)
     {
         ++*cap;  // touch the capture (use-after-free would be reported by ASan)
@@ -87,6 +88,7 @@ struct Cont {
 struct ContVoid {
     Env<void> *env;
     std::shared_ptr<int> cap;
+    std::shared_ptr<QXmppTask<void>> self;
     void operator()()
     {
         ++*cap;
@@ -190,11 +192,16 @@ void runBehaviour(Ctx &ctx, const QString &caseId, const QString &kind, const QJ
             } else if (a == "Then") {
                 e.body = s["b"].toString();
                 ev["b"] = e.body;
+                bool sc = s["sc"].toBool();
+                ev["sc"] = sc;
                 e.executing = 't';
+                // (a shared_ptr keeps the functor copyable for move-only results; each copy of the
+                // functor shares the one captured task copy, as a lambda capturing by value would)
+                auto self = sc ? std::make_shared<QXmppTask<T>>(e.ts[0]) : std::shared_ptr<QXmppTask<T>>();
                 if constexpr (std::is_void_v<T>) {
-                    e.ts[0].then(e.ctxObj, ContVoid { &e, e.sentinel });
+                    e.ts[0].then(e.ctxObj, ContVoid { &e, e.sentinel, self });
                 } else {
-                    e.ts[0].then(e.ctxObj, Cont<T> { &e, e.sentinel });
+                    e.ts[0].then(e.ctxObj, Cont<T> { &e, e.sentinel, self });
                 }
                 e.executing = 0;
             } else if (a == "Finish") {
